@@ -298,6 +298,7 @@ def execute(scen, scratch):
         exempt = case.get("exempt_random_prefix", False)
         verdicts.append((ci, case["channel"], ref["shex"]["kind"], sha(ref["shex"].get("text", "")) if ref["shex"]["kind"] == "ok" else ref["shex"].get("exc")))
         shex_tie_choice = False
+        shex_differs = False
         for k, r in enumerate(results[1:], 1):
             a, b = ref["shex"], r["shex"]
             if a["kind"] == "exc" or b["kind"] == "exc":
@@ -311,6 +312,7 @@ def execute(scen, scratch):
             if a["text"] == b["text"]:
                 continue
             sim.probes["shexc_bytes_differ"] += 1
+            shex_differs = True
             if exempt:
                 sim.probes["exempt_random_prefix_differs"] += 1
                 continue
@@ -340,7 +342,9 @@ def execute(scen, scratch):
                 sim.probes["shacl_digest_differs"] += 1
                 if exempt:
                     continue
-                sig = "rdflib_store_order_tie_order" if (store_backed and shex_tie_choice) else None
+                # (documents that re-use the caller's prefix labels make sheXer print ambiguous ShExC names, so a tie
+                #  choice between two properties can read as a mere line-order difference there)
+                sig = "rdflib_store_order_tie_order" if (store_backed and (shex_tie_choice or (case.get("clash_labels") and shex_differs))) else None
                 violations.append(violation("shacl_iso", "not_isomorphic",
                                             {"case": ci, "channel": case["channel"], "hashseeds": [scen["hashseeds"][0], scen["hashseeds"][k]]}, sig))
         if ref["shex"]["kind"] == "ok":
